@@ -4,7 +4,6 @@ import (
 	"encoding/json"
 	"flag"
 	"fmt"
-	"go/types"
 	"os"
 	"path/filepath"
 	"sort"
@@ -104,10 +103,7 @@ func (e *Engine) targetsFor(prop string) ([]target, []string) {
 				if fn == nil || len(fn.Blocks) == 0 || fn.Synthetic != "" {
 					continue
 				}
-				var own *Contract
-				if fn.Object() != nil {
-					own = e.contracts[funcKeyOf(fn.Object().(*types.Func))]
-				}
+				own := e.contracts[keyOfFunction(fn)]
 				out = append(out, target{fn: fn, con: own, iface: c})
 			}
 			continue
@@ -246,7 +242,7 @@ func cmdVC(args []string) int {
 	}
 	var sel []target
 	for _, t := range ts {
-		k := funcKeyOf(t.fn.Object().(*types.Func))
+		k := keyOfFunction(t.fn)
 		if strings.Contains(displayKey(k), pat) {
 			sel = append(sel, t)
 		}
@@ -455,12 +451,25 @@ func report(e *Engine, prop, tier string, seed int, t0 time.Time, ts []target, r
 	present := map[string]bool{}
 	var names []string
 	vacuous := 0
+	deadCovers := map[string][]string{}
+	liveRet := map[string]bool{}
+	hasRet := map[string]bool{}
+	defer func() { _ = deadCovers }()
 	for _, v := range vs {
 		present[v.Ob.Name] = true
 		if v.Ob.Class == "cover" {
 			if v.Status == "cover-vacuous" {
-				vacuous++
-				problems = append(problems, "vacuous precondition: "+v.Ob.Name)
+				if strings.HasSuffix(v.Ob.Name, "/cover#pre") {
+					vacuous++
+					problems = append(problems, "vacuous precondition: "+v.Ob.Name)
+				} else {
+					deadCovers[v.Ob.Fn] = append(deadCovers[v.Ob.Fn], v.Ob.Name)
+				}
+			} else if strings.Contains(v.Ob.Name, "/cover#ret") {
+				liveRet[v.Ob.Fn] = true
+			}
+			if strings.Contains(v.Ob.Name, "/cover#ret") {
+				hasRet[v.Ob.Fn] = true
 			}
 			continue
 		}
@@ -506,6 +515,11 @@ func report(e *Engine, prop, tier string, seed int, t0 time.Time, ts []target, r
 		b, _ := json.MarshalIndent(rec, "", " ")
 		os.WriteFile(rp, b, 0o644)
 		violations = append(violations, fmt.Sprintf("VIOLATION property=%s replay=%s obligation=%s%s", prop, rp, v.Ob.Name, suffix))
+	}
+	for fn := range hasRet {
+		if !liveRet[fn] {
+			problems = append(problems, "vacuous contract: no return of "+displayKey(fn)+" is reachable under its assumptions")
+		}
 	}
 	// obligations of the baseline that vanished
 	if baseline != nil && !rebaseline {
